@@ -443,3 +443,7 @@ func Recase(t *rapid.T, lx []Lexeme) []Lexeme {
 	}
 	return out
 }
+
+// Locate2 returns the 1-based line and rune column of byte offset off and
+// whether the line prefix before it is ASCII and tab-free.
+func Locate2(src string, off int) (line, col int, ascii bool) { return pos(src, off) }
